@@ -87,6 +87,7 @@ class Ctx:
 
 
 def _run(cell, plug, tot, g, q, stalls, sg, s1g, r0d, r0p, ms, ice, e, dt, pick, price, sim_t, rz=False):
+    stubs.install_random_shim()  # any randomness reachable from nrel.hive globals is a solver-chosen draw
     c = _cell(cell)
     p = A.plug_of(plug) if KIND in PLUG_KINDS else "LEVEL_2"
     if KIND in REQ_KINDS:
@@ -113,7 +114,7 @@ def _run(cell, plug, tot, g, q, stalls, sg, s1g, r0d, r0p, ms, ice, e, dt, pick,
     v_pre = sim.vehicles["v0"]
     if not (I.req_ok(sim, w.vids) and I.mem_ok_vehicle(sim, v_pre) and I.loc_ok(sim, w.vids)):
         return None
-    if rd == 1 and KIND != 9:
+    if rd == 1 and KIND not in (9, 12):
         return None
     # where the interpolated point of a partial traversal may fall
     route = getattr(v_pre.vehicle_state, "route", ())
@@ -366,7 +367,9 @@ def _o_c19(x) -> bool:
         d_bal_s = d_bal_s + (x.sim2.stations[sid].balance - x.sim.stations[sid].balance)
     if not feq(paid, d_bal_s):
         return False
-    return True
+    # every pickup / drop-off that changes the state is reported exactly once, and nothing is reported that did not happen
+    # (the request-status clauses of the C03 oracle: pickup event <=> r0 left the waiting set and is on board, ...)
+    return _o_c03(x)
 
 
 def _o_c07(x) -> bool:
